@@ -5,6 +5,7 @@
 pub mod boundary;
 pub mod nec;
 pub mod tree;
+pub mod c16;
 pub mod ghost;
 pub mod pspec;
 pub mod layer_e;
@@ -19,6 +20,7 @@ pub mod c06;
 pub use boundary::*;
 pub use nec::*;
 pub use tree::*;
+pub use c16::*;
 pub use ghost::*;
 pub use pspec::*;
 pub use layer_e::*;
